@@ -34,7 +34,7 @@
       those of its values, and [t] is well-formed: the kind flags of its nodes agree with
       the slots they hang in ([flags_ok]) and the tree satisfies the shape invariant of
       Find / Add ([wfb], Radix/Tree.v) and of Delete ([shape], C06/TreeDel.v). *)
-From HV Require Import Base.Prelude C06.Pat C06.Model C06.Spec C06.Tree C06.ReprFacts C06.Proofs C06.Witness.
+From HV Require Import Base.Prelude C06.Pat C06.Model C06.Spec C06.Tree C06.ReprFacts C06.Proofs C06.Witness C06.Processor.
 From HV Require Import C06.RepoSim C06.TreeBridge C06.TreeTheorems.
 From HV Require Radix.Spec Radix.Machine Radix.Tree Radix.TreeAddProofs C06.TreeDel C06.TreeDelProofs.
 
@@ -285,3 +285,55 @@ Example C06_tree_prune_merge_example :
   index (t_run_fx all_fix (firstn 2 ops)) <> index (t_run_fx all_fix (firstn 1 ops)).
 Proof. vm_compute. split; [reflexivity | discriminate]. Qed.
 Print Assumptions C06_tree_prune_merge_example.
+
+(** ** READY FOR THE REPAIR OF C06-F6 (fixes/C06-F6.diff: the rule-set processor
+    refuses a rule set in which a rule id occurs twice).  [prun true] / [pstep true]
+    are the repository behind that processor, [pcurrent] / [pspec_ok] / [pwf] /
+    [pdirty] the specification in which such a rule set cannot be applied.  "No
+    duplicate ids" is then a consequence of acceptance, not a hypothesis. *)
+
+Theorem C06_F6_repaired_history_equals_fresh : forall ops,
+  pwf ops = true -> pdirty ops = [] ->
+  index (prun true all_fix ops) = index (fresh all_fix (pcurrent ops)).
+Proof. exact f6_history_equals_fresh. Qed.
+Print Assumptions C06_F6_repaired_history_equals_fresh.
+
+Theorem C06_F6_repaired_rejected_iff_cannot_apply : forall ops o,
+  pwf (ops ++ [o]) = true ->
+  exists st' res, pstep true all_fix (prun true all_fix ops) o = (st', res) /\
+    (res = None <-> pspec_ok (pcurrent ops) o = true) /\ (res <> None -> st' = prun true all_fix ops).
+Proof. exact f6_rejected_iff_cannot_apply. Qed.
+Print Assumptions C06_F6_repaired_rejected_iff_cannot_apply.
+
+Theorem C06_F6_repaired_deleted_never_match : forall ops,
+  pwf ops = true ->
+  forall pinned_lookup path conditions r,
+    find_rule pinned_lookup (index (prun true all_fix ops)) path conditions = Some r ->
+    In (r_def r) (get_set (pcurrent ops) (r_src r)).
+Proof. exact f6_found_is_current. Qed.
+Print Assumptions C06_F6_repaired_deleted_never_match.
+
+Theorem C06_F6_repaired_current_rules_indexed : forall ops,
+  pwf ops = true ->
+  forall r x p, In (r_def r) (get_set (pcurrent ops) (r_src r)) -> In x (routes_of r) -> rpat x = Some p ->
+    exists n, get (index (prun true all_fix ops)) p = Some n /\ In x (vals n).
+Proof. exact f6_current_rules_indexed. Qed.
+Print Assumptions C06_F6_repaired_current_rules_indexed.
+
+(** on the transcribed radix tree *)
+Theorem C06_F6_repaired_tree_history_equals_fresh : forall ops,
+  pwf ops = true -> pdirty ops = [] ->
+  forall path (conditions : route -> bool),
+    t_find_rule false (index (t_prun true all_fix ops)) path conditions =
+    t_find_rule false (index (t_run_fx all_fix (fresh_ops (pcurrent ops)))) path conditions.
+Proof. exact f6_tree_history_equals_fresh. Qed.
+Print Assumptions C06_F6_repaired_tree_history_equals_fresh.
+
+(** the witness of C06-F6 passes with the repair *)
+Example C06_F6_repaired_example :
+  pwf w_F6_now = true /\ pdirty w_F6_now = [] /\
+  m_answer (prun true all_fix w_F6_now) 0 "/p" = Some 0 /\
+  m_answer (fresh all_fix (pcurrent w_F6_now)) 0 "/p" = Some 0 /\
+  t_answer (t_prun true all_fix w_F6_now) 0 "/p" = Some 0.
+Proof. exact f6_repaired_example. Qed.
+Print Assumptions C06_F6_repaired_example.
